@@ -22,4 +22,4 @@ m["demo_cmd"] = " && ".join(parts)
 json.dump(m, open(os.path.join(d, "meta.json"), "w"), indent=1)
 subprocess.call(["git", "-C", "/repo", "worktree", "remove", "--force", "/tmp/seed/%s" % p])
 print("ingested", d, "| demo_dest:", dest, "| demo_cmd:", m["demo_cmd"])
-subprocess.Popen("/verif/tools/verify_seed.py %s > /tmp/seed/verify_%s.log 2>&1" % (d, p), shell=True, stdin=subprocess.DEVNULL, stdout=subprocess.DEVNULL, stderr=subprocess.DEVNULL, start_new_session=True)
+subprocess.Popen("flock /tmp/seed/verify.lock /verif/tools/verify_seed.py %s > /tmp/seed/verify_%s.log 2>&1" % (d, p), shell=True, stdin=subprocess.DEVNULL, stdout=subprocess.DEVNULL, stderr=subprocess.DEVNULL, start_new_session=True)
